@@ -19,7 +19,7 @@ static void run(const vector<pair<int, int>> &shapePos, pair<int, int> jpos, con
     // known-finding class: three terminals in one row or one column (a terminal's pin then lies on the tree path between two others)
     vector<string> kc; for (size_t a = 0; a < shapePos.size(); a++) for (size_t b = a + 1; b < shapePos.size(); b++) for (size_t d = b + 1; d < shapePos.size(); d++) if ((shapePos[a].first == shapePos[b].first && shapePos[b].first == shapePos[d].first) || (shapePos[a].second == shapePos[b].second && shapePos[b].second == shapePos[d].second)) { if (kc.empty()) kc.push_back("three_terminals_collinear"); }
     // NOTE: nothing that outlives the case (ctx counters, class sets) may be allocated between heap_begin and heap_end
-    int nTrans = 0, nStates = 0, rConn = -1; size_t rJunc = 0; bool aborted = false; char abortWhat[160] = ""; char whyBuf[120] = "", obsBuf[200] = ""; bool pinOnPath = false;
+    int nTrans = 0, nStates = 0, rConn = -1; size_t rJunc = 0; bool aborted = false; char abortWhat[600] = ""; char whyBuf[120] = "", obsBuf[200] = ""; bool pinOnPath = false;
     if (c.heap) mcx::heap_begin(c.heap, mcx::REUSE_NONE, 0);
     {
     string why, obs;
@@ -76,12 +76,12 @@ static void run(const vector<pair<int, int>> &shapePos, pair<int, int> jpos, con
         }
         rConn = nconn; rJunc = juncs.size();
         delete router;
-    } catch (vpsc::CriticalFailure &f) { aborted = true; string w = f.what(); size_t p = w.find("expression"); snprintf(abortWhat, sizeof abortWhat, "%s", w.substr(p == string::npos ? 0 : p, 150).c_str()); why.clear(); }
+    } catch (vpsc::CriticalFailure &f) { aborted = true; snprintf(abortWhat, sizeof abortWhat, "%s", f.what().c_str()); why.clear(); }
     snprintf(whyBuf, sizeof whyBuf, "%s", why.c_str()); snprintf(obsBuf, sizeof obsBuf, "%s", obs.c_str());
     }
     if (c.heap) mcx::heap_end();
     ctx.count("transitions", nTrans); ctx.count("states", nStates);
-    if (aborted) { ctx.count("aborted_by_assert"); ctx.cls("abort", abortWhat); }
+    if (aborted) ctx.library_abort(abortWhat, desc);
     if (rConn >= 0) { ctx.cls("connectors_in_result", mcx::fmt("%d", rConn)); ctx.cls("junctions_in_result", mcx::fmt("%zu", rJunc)); }
     if (pinOnPath) kc.push_back("dropped_terminal_pin_on_tree_path");
     if (c.reg == 2) kc.push_back("registered_by_terminal_list");
